@@ -28,7 +28,29 @@ pub const PATTERNS: &[&str] = &["a", "a|b", "x.y", "^a", "b$", "[ab]+", "(", "\\
 
 pub const STRINGS: &[&str] = &["", "a", "b", "ab", "xay", "A", "1", "aa", "ba", "a b", " a", "a\tb"];
 
+/// Rare scalars at the edges: large and extreme integers (all within i64), tiny and huge floats,
+/// negative zero, a long string, strings with regex metacharacters or non-ASCII text.
+pub fn edge_scalar(rng: &mut Rng) -> Value {
+    match rng.below(12) {
+        0 => Value::from(2147483648i64),
+        1 => Value::from(9007199254740993i64),
+        2 => Value::from(i64::MAX),
+        3 => Value::from(i64::MIN),
+        4 => Value::from(-2147483649i64),
+        5 => Value::Number(Number::from_f64(1e300).unwrap()),
+        6 => Value::Number(Number::from_f64(-0.0).unwrap()),
+        7 => Value::Number(Number::from_f64(5e-324).unwrap()),
+        8 => Value::String("x".repeat(300)),
+        9 => Value::String("a.b*c(d)[e]^$|\\".to_string()),
+        10 => Value::String("ж日本\u{1F600}é".to_string()),
+        _ => Value::Number(Number::from_f64(0.1 + 0.2).unwrap()),
+    }
+}
+
 pub fn scalar(rng: &mut Rng) -> Value {
+    if rng.chance(1, 40) {
+        return edge_scalar(rng);
+    }
     match rng.weighted(&[2, 2, 2, 8, 4, 8]) {
         0 => Value::Null,
         1 => Value::Bool(true),
